@@ -194,7 +194,7 @@ def run(ctx):
     ctx.rule = ("doubles (angle, tol): deterministic families (special values incl. -1e-20, +-2pi and neighbours; "
                 "m*pi/2^k and +-1..3 ulp; rest next to 255/2^k, 127/2^k, 128/2^k (d-window edges); within tol of 0 and of 2pi "
                 "in radians and in half turns, both signs) + random (uniform [0,2pi), [-2pi,0), 2pi<|a|<100, 1e-12<|a|<1, "
-                "1e2<|a|<1e6, 1e6<|a|<1e18), tol in {1e-1..1e-9} or log-uniform (quick tier: every second member of the deterministic families); plus rot_X/Y/Z(angle=) on a real connection "
+                "1e2<|a|<1e6, 1e6<|a|<1e18), tol in {1e-1..1e-9} or log-uniform (quick tier: every third member of the deterministic families); plus rot_X/Y/Z(angle=) on a real connection "
                 "(default tol; three routes: angle only, angle together with non-default n and d - which the documentation says are ignored -, n and d only - emitted verbatim; a Hadamard separates the calls) and as runs of 2..4 consecutive calls without separator (whole-run oracle per maximal same-axis group); every builder program under six configurations: default / hardware_config=NVHardwareConfig / compiler=NVSubroutineTranspiler, each with set_is_using_hardware False and True. Every case: implementation vs Coq model as exact (n,d) lists, and the oracle "
                 "(1<=n<=255, 0<=d<=255, circle distance |sum n*pi/2^d - angle| <= tol + 2^-49 in 80-digit rationals). "
                 "non-trivial = at least one rotation step emitted; distinct = distinct (angle bits, tol bits, route)")
@@ -223,8 +223,8 @@ def run(ctx):
     n_corpus = run_corpus(ctx, impl)
 
     # ---- generated stream: implementation + oracle
-    n_rand = 1500 if quick else 400000
-    gen = ac.gen_cases(ctx.rng, n_rand, thin=2 if quick else 1)
+    n_rand = 1000 if quick else 400000
+    gen = ac.gen_cases(ctx.rng, n_rand, thin=3 if quick else 1)
     cases, cls_count, len_count, tol_count, maxd = [], {}, {}, {}, 0
     fcases, unobserved = [], 0
     n_front = 2500 if quick else 25000     # calls whose front-end values are observed and compared
@@ -323,7 +323,12 @@ def run(ctx):
         sel = sorted(keep)
     else:
         sel = list(range(len(cases)))
-    codes = ac.correspond(ctx, [cases[i] for i in sel], per_file=250 if quick else 500)
+    # both sets of case files are evaluated at the same time (separate coqc processes)
+    from concurrent.futures import ThreadPoolExecutor
+    with ThreadPoolExecutor(max_workers=2) as pool:
+        fut_front = pool.submit(ac.correspond_front, ctx, fcases, 250 if quick else 500)
+        codes = ac.correspond(ctx, [cases[i] for i in sel], per_file=250 if quick else 500)
+        fcodes = fut_front.result()
     mism = []
     if codes is not None:
         hist = {0: len(sel) - len(codes)}
@@ -341,7 +346,6 @@ def run(ctx):
         ctx.log(f"correspondence: {hist}")
     # ---- float front end: observed (rest, tol_rest) vs PrimFloat model vs rational model, allowance
     fmism = []
-    fcodes = ac.correspond_front(ctx, fcases, per_file=250 if quick else 500)
     if fcodes is not None:
         fh = dict(cases=len(fcases), observed_in_the_implementation=len(fcases) - unobserved, replica_used=unobserved,
                   primfloat_differs_from_observed=0, rational_differs_from_primfloat=0,
